@@ -1027,13 +1027,15 @@ def hl_expected(tok):
     return (*colorsys.hls_to_rgb(h, l, 1.0), 1.0)
 
 
-def compare_calls(case, obs, calls):
+def compare_calls(case, obs, calls, model_mult=None):
     """one model answer (list of calls) against the implementation's artists; returns disagreements"""
     dis = []
     res = obs["res"]
-    exact = case["regime"] == "exact" and (case.get("mult") is None or dec(mult_value(case["mult"])) == 1) and obs.get("used_mult") in ("1", None)
+    um = F(obs["used_mult"]) if obs.get("used_mult") else (F(model_mult) if model_mult else Fraction(1))
+    if um <= 0:
+        um = Fraction(1)
+    exact = case["regime"] == "exact" and um == 1
     fj = obs["field"]["mesh"]["region"]
-    um = F(obs["used_mult"]) if obs.get("used_mult") else Fraction(1)
     scale = max(abs(F(x)) for x in fj["pmin"] + fj["pmax"]) / um
     mi = [c for c in calls if c["call"] in ("imshow", "imshow_hl")]
     mq = [c for c in calls if c["call"] == "quiver"]
@@ -1150,7 +1152,7 @@ def compare(case, obs, rs):
         elif st == "err" or obs.get("res") is None:
             d = []
         else:
-            d = compare_calls(case, obs, r["ok"])
+            d = compare_calls(case, obs, r["ok"], r.get("mult"))
         if not d:
             return []
         best = best or d
